@@ -3,12 +3,6 @@ import vlib
 
 
 def classify(case, kind):
-    if kind != "prop" or case.get("path") != "from_config":
-        return set()
-    # the result obtained through from_config ignores the option: it can only fail where the option is
-    # off; the same runs judged on the directly-set option are a separate case, so nothing is masked
-    if any(not r.get("allowUndefinedAsOptionalInput", True) for r in case.get("runs", [])):
-        return {"variables-option-not-plumbed"}
     return set()
 
 
